@@ -34,7 +34,7 @@ Quantified over: {quant}
 {len(prev)} earlier contributors already produced these changes for this property — do NOT repeat any of them or a close variant, and do not reuse their code sites or trigger conditions:
 {prevtxt}
 
-YOUR TASK: produce ONE realistic change to the library source (files under src/) that BREAKS this property in a way that is NEW in both code site and trigger, while the crate still compiles and its whole existing test-suite still passes (`cargo test --offline` must be green: unit tests, integration tests under tests/, and doc tests). It should look like something a real contributor could plausibly introduce (a refactoring, optimisation, "robustness" tweak, feature addition, dependency-style cleanup...). It must be a genuine violation of the property AS STATED and stay strictly inside what the property quantifies over (re-read the "Quantified over" text: if your trigger needs something outside it, pick another idea). Any realistic kind of change is welcome (bug-fix attempt gone wrong, refactoring, optimisation, new feature, hardening). Where it makes sense for this property, prefer code paths that the earlier ideas used least: files on disk (the `from_path` constructors, `shapefile::read`, `read_as`, `read_shapes`, `read_shapes_as`), the complete `Writer` / `Reader` pair with its .dbf, typed (`*_as`) routes, values stored in the file HEADERS, the less common shape types (PointM, MultipointM, PolygonM, Multipatch), and the interaction of TWO public calls made in sequence on the same object. The effect must be reachable by an ordinary user of the public API. The property will be checked by a randomised / enumerative test generator that already knows the ideas above. Do not edit or delete existing tests.
+YOUR TASK: produce ONE realistic change to the library source (files under src/) that BREAKS this property in a way that is NEW in both code site and trigger, while the crate still compiles and its whole existing test-suite still passes (`cargo test --offline` must be green: unit tests, integration tests under tests/, and doc tests). It should look like something a real contributor could plausibly introduce (a refactoring, optimisation, "robustness" tweak, feature addition, dependency-style cleanup...). It must be a genuine violation of the property AS STATED and stay strictly inside what the property quantifies over (re-read the "Quantified over" text: if your trigger needs something outside it, pick another idea). Prefer a change whose effect is visible through ORDINARY use of the public API (typical shapes, typical call sequences a user of the crate writes): the most valuable change is one that a maintainer could merge by accident, that ordinary users would then hit, and that the existing tests do not see. Keep it small and plausible; it must differ in code site and trigger from every earlier idea listed above (read their `files:` and `needs:` notes). The property will be checked by a randomised / enumerative test generator that already knows the ideas above. Do not edit or delete existing tests.
 
 DELIVERABLES, all under {wt}/_out/ (create the directory):
 1. patch.diff — the output of `git diff -- src/` (library source only).
